@@ -199,8 +199,11 @@ def route_requests(p, c, m):
         base[prm["name"]] = [valid_value(prm), valid_value(prm)] if prm.get("slice") else valid_value(prm)
     out = []
 
-    def add(label, values=None, body="valid", script=None, decoy=None, **tags):
+    def add(label, values=None, body="valid", script=None, decoy=None, ctype=None, **tags):
         rq = build_request(m["verb"], tmpl, params, values if values is not None else base, body)
+        if ctype:
+            rq["headers"] = list(rq["headers"]) + [("Content-Type", ctype)]
+            label = label + "+" + ctype.split(";")[-1].strip()
         if decoy:
             # the same wire name, carried in ANOTHER location than the declared one
             dloc, dname, dval = decoy
@@ -225,6 +228,7 @@ def route_requests(p, c, m):
         add("refuse-all", script={"refuse": {"*": {"status": 403, "message": "denied"}}})
         add("refuse-all-custom", script={"refuse": {"*": {"status": 401, "message": "m",
                                                           "custom": {"code": 7, "why": ["a", "b"]}}}})
+        add("refuse-all-nil-context", script={"refuse": {"*": {"status": 403, "message": "denied", "nil_ctx": True}}})
         add("refuse-last-differs", script={"refuse": {"*": {"status": 401, "message": "first"},
                                                       "#%d" % (len(sec) - 1): {"status": 402, "message": "last"}}})
     for prm in real:
@@ -232,6 +236,8 @@ def route_requests(p, c, m):
         if prm["loc"] == "body":
             for b in ("missing", "malformed", "illtyped", "norequired", "unicode", "null", "trailing", "twodocs", "whitespace"):
                 add("body-" + b, body=b)
+            # the same valid document, labelled with a media type that carries a parameter
+            add("body-valid", body="valid", ctype="application/json; charset=utf-8")
             # two faults at once: the body AND another parameter are invalid (the first one in signature order is reported)
             for other in real:
                 if other["loc"] in ("body", "path") or other["type"] == "string" or other.get("slice"):
@@ -410,6 +416,8 @@ def list_bodies(rng, p):
             for prm in m["params"]:
                 if (not prm["ctx"]) and prm["loc"] == "body" and prm["type"] == "Item" and not prm["pointer"] and rng.random() < 0.5:
                     prm["type"] = "[]Item"
+                    # rules before the (implicit, appended) `required`: the body is still mandatory
+                    prm["validator"] = rng.choice([prm["validator"], "min=1,dive", "min=1,required"])
     return p
 
 
